@@ -380,9 +380,10 @@ def match_known(known, v: Violation):
     names = ("clause", "op", "kind", "site", "argclass")
     vals = dict(zip(names, v.sig[1:]))
     for k in known:
-        m = k.get("match", {})
-        if all(fnmatch.fnmatchcase(str(vals[n]), str(m.get(n, "*"))) for n in names):
-            return k
+        ms = k.get("match", {})
+        for m in (ms if isinstance(ms, list) else [ms]):  # a finding may list several signatures of the same defect
+            if all(fnmatch.fnmatchcase(str(vals[n]), str(m.get(n, "*"))) for n in names):
+                return k
     return None
 
 
